@@ -101,6 +101,8 @@ type c18State struct {
 	goneObs bool // a read of a page whose file left the replica has been observed failing in this history
 	gate    *c18Gate
 	hydrate bool
+	tt      bool // a target time is set (VTTSET without VTTRESET yet)
+	preTT   ltx.TXID // position before VTTSET
 }
 
 // c18Gate wraps the VFS's replica client: when armed, the next level-0 listing with a seek position (a poll's
@@ -156,9 +158,19 @@ func (st *c18State) close() {
 // c18Filter is the static legality of VFS actions: VOPEN once, the others only
 // after it, VLOCK/VUNLOCK alternating.
 func c18Filter(hist []string) bool {
-	opened, locked := false, false
+	opened, locked, tt := false, false, false
 	for _, op := range hist {
 		switch op {
+		case "VTTSET":
+			if !opened || locked || tt {
+				return false
+			}
+			tt = true
+		case "VTTRESET":
+			if !tt || locked {
+				return false
+			}
+			tt = false
 		case "VOPEN":
 			if opened {
 				return false
@@ -252,6 +264,49 @@ func (st *c18State) do(s *scn.Scn, op string) bool {
 			return false
 		}
 		st.poll(s, op)
+		return true
+	case "VTTSET":
+		// time travel switched on (T = a candidate time in the middle of the replica's history) and left on: the
+		// operations that follow happen while the target time is set
+		if st.f == nil || st.locked || st.tt {
+			return false
+		}
+		Ts, ts, terr := c18Times(s, st.arch)
+		if terr != nil || len(Ts) == 0 {
+			return false
+		}
+		T := Ts[len(Ts)/2]
+		tt := time.UnixMilli(T).UTC()
+		want, rerr := s.Restore(scn.RestoreOpt{Timestamp: tt})
+		if rerr != nil {
+			return false
+		}
+		if verr := st.f.SetTargetTime(ctx, tt); verr != nil {
+			st.add("vfs-tt-availability-differs", fmt.Sprintf("T=%s: restore succeeds, SetTargetTime: %v", relT(T, ts), verr))
+			c18Record(s, op, "err")
+			return true
+		}
+		st.tt, st.preTT = true, st.lastPos
+		// going back is what time travel is for: polls while the target time is set are judged from here
+		st.lastPos, st.view = st.f.Pos().TXID, st.f.Pos().TXID
+		st.compare(s, want, "tt-", fmt.Sprintf("time travel to T=%s (pos %d)", relT(T, ts), st.f.Pos().TXID))
+		c18Record(s, op, "ok")
+		return true
+	case "VTTRESET":
+		if st.f == nil || st.locked || !st.tt {
+			return false
+		}
+		if err := st.f.ResetTime(ctx); err != nil {
+			st.add("vfs-tt-reset-failed", scn.ErrClass(err))
+		}
+		st.tt = false
+		pos := st.f.Pos().TXID
+		if pos < st.preTT {
+			st.add("vfs-pos-regressed", fmt.Sprintf("ResetTime after time travel moved the position from %d (before SetTargetTime) back to %d", st.preTT, pos))
+		}
+		st.lastPos, st.view = pos, pos
+		c18Record(s, op, fmt.Sprintf("ok pos=%d", pos))
+		st.check(s, "after ResetTime")
 		return true
 	case "VCLOSE":
 		if st.f == nil || st.locked {
@@ -641,6 +696,10 @@ func (st *c18State) final(s *scn.Scn, tt bool) (string, error) {
 			return "no-vfs/" + shapeClass(s), nil
 		}
 	}
+	if st.tt {
+		st.at = "final-VTTRESET"
+		st.do(s, "VTTRESET")
+	}
 	st.at = "final-VPOLL"
 	st.poll(s, "VPOLL")
 	if st.locked {
@@ -990,6 +1049,11 @@ func c18(args []string) int {
 		// from it and catches up with what was replicated while it was closed
 		{Name: "hydrated/512-none/reopen", Cfg: n512, Hydrate: true, Alphabet: sub("VOPEN VCLOSE VPOLL W1 U SW"), Depth: d(3, 4),
 			Seeds: seeds("W3 SW VOPEN VCLOSE U SW W1 SW", "W3 SW W1 SW VOPEN W1 SW VPOLL VCLOSE U SW", "W3 W3 SW VOPEN D VAC SW VPOLL VCLOSE W1 SW")},
+		// writes replicated WHILE a target time is set, then back to latest: with and without hydration
+		{Name: "hydrated/512-none/writes-during-time-travel", Cfg: n512, Hydrate: true, Alphabet: sub("VTTSET VTTRESET U W1 SW VPOLL"), Depth: d(4, 5),
+			Seeds: seeds("W3 SW W1 SW VOPEN", "W3 SW U SW W1 SW VOPEN VTTSET")},
+		{Name: "time-travel/512-none/writes-during-time-travel", Cfg: n512, Alphabet: sub("VTTSET VTTRESET U W1 SW VPOLL"), Depth: d(3, 5),
+			Seeds: seeds("W3 SW W1 SW VOPEN", "W3 SW U SW W1 SW VOPEN VTTSET")},
 		{Name: "time-travel/512-none/set-during-poll", Cfg: n512, Alphabet: sub("VPTT W1 SW VPOLL"), Depth: d(2, 3),
 			Seeds: seeds("W1 SW W1 SW W1 SW VOPEN W1 SW W1 SW", "W1 SW W3 SW VOPEN D VAC SW W1 SW")},
 		{Name: "time-travel/512-none", Cfg: n512, Cache: one(n512), TT: true, Alphabet: aTT, Depth: d(1, 3), Seeds: sTT},
